@@ -107,7 +107,7 @@ def impl(case):
             chans = np.array(case['chans'], dtype=np.int64).reshape((len(spikes), case['nloc']))
             path = d / 'w.npy'
             T.export_waveforms(path, traces, spikes, chans if case.get('chkind') == 'array' else chans.tolist(),
-                               n_samples_waveforms=n, sample2unit=case['factor'])
+                               n_samples_waveforms=n, sample2unit=case['factor'], cache=bool(case.get('cache')))
             arr = np.load(path)
             res = dict(shape=list(arr.shape), dtype=str(arr.dtype), vals=arr.tolist(),
                        ivs=[[int(a), int(b)] for a, b in traces.iter_chunks()],
@@ -243,6 +243,8 @@ def nontrivial(case):
 
 
 def tally(rep, case, impl_res, ans):
+    if case['op'] in ('export', 'lookup'):
+        rep.count('export_cache:%s' % bool(case.get('cache')))
     rep.count('op:' + case['op'])
     if case['op'] in ('model', 'model_store'):
         if case['op'] == 'model_store' and 'ok' in impl_res and not impl_res['ok'].get('skip'):
@@ -374,7 +376,7 @@ def gen(tier, rng):
             chans.append(row)
         c = dict(p=PID, op='export' if k % 2 else 'lookup', dur=dur, nch=nch, n=n, spikes=spikes, chans=chans,
                  nloc=nloc, sdtype=sdts[k % 4], dtype=dtype, factor=[1, 2, 1.0, 0.5, 2.5][k % 5],
-                 chkind=['array', 'list'][(k // 2) % 2])
+                 chkind=['array', 'list'][(k // 2) % 2], cache=bool((k // 3) % 2))
         c.update(be)
         if dtype == 'int16' and k % 4 == 0:
             c['bias'] = 20000        # products with an int factor exceed the int16 range
